@@ -100,6 +100,17 @@ func FlattenProperties(it Item) Item {
 		return nil
 	}
 	typ := it.GetType()
+	if typ == "" {
+		// no type name: the kind of value says what there is to flatten
+		switch it.(type) {
+		case *Activity, Activity:
+			typ = ActivityType
+		case *IntransitiveActivity, IntransitiveActivity, *Question, Question:
+			typ = IntransitiveActivityType
+		case *Actor, Actor:
+			typ = ActorType
+		}
+	}
 	// the generic names (Object, Activity, IntransitiveActivity, Actor) are in none of the family lists
 	if IntransitiveActivityTypes.Contains(typ) || typ == IntransitiveActivityType {
 		_ = OnIntransitiveActivity(it, func(a *IntransitiveActivity) error {
